@@ -22,7 +22,7 @@ typedef struct { T o; unsigned char m[LMAX + 1]; int n; long base; } st_t;
 
 enum { K_NEW, K_NEW_PTR, K_NEW_BUFF,
        K_APP_OBJ, K_PRE_OBJ, K_APP_PTR, K_PRE_PTR,
-       K_SPLICE, K_SPLICE_PTR, K_TRIM, K_REV, K_CLEAR, K_SPRINTF, K_DONE, K_DONE_INIT, K_DONE_INIT_PTR, K_APP_SELF, K_PRE_SELF, K_SPLICE_SELF, K_SPLICE_OWN };
+       K_SPLICE, K_SPLICE_PTR, K_TRIM, K_REV, K_CLEAR, K_SPRINTF, K_DONE, K_DONE_INIT, K_DONE_INIT_PTR, K_APP_SELF, K_PRE_SELF, K_SPLICE_SELF, K_SPLICE_OWN, K_SPLICE_OWN1 };      /* K_SPLICE_OWN1: one byte of the object's own storage replaces a longer stretch (the result fits the block it already has) */
 typedef struct { int k, a, b, c; bs_t t; } op_t;
 static op_t OPS[6000]; static int NOPS;
 static const bs_t NUL_ = { NULL, 0 };
@@ -57,6 +57,8 @@ static void build_ops(void)
     add(K_APP_SELF, 0, 0, 0, NUL_); add(K_PRE_SELF, 0, 0, 0, NUL_); add(K_SPLICE_SELF, 0, 0, 0, NUL_); add(K_SPLICE_SELF, 1, 1, 0, NUL_);
     { static const int own[][3] = { { 0, 0, 0 }, { 0, 1, 1 }, { 1, 1, 0 }, { 0, 2, 1 }, { 1, 0, 1 }, { 0, 2, 2 } };
       for (int i = 0; i < 6; i++) add(K_SPLICE_OWN, own[i][0], own[i][1], own[i][2], NUL_); }
+    { static const int own1[][3] = { { 0, 2, 1 }, { 0, 2, 2 }, { 1, 2, 0 }, { 0, 1, 2 }, { 1, 1, 2 }, { 0, 3, 1 }, { 1, 2, 2 } };
+      for (int i = 0; i < 7; i++) add(K_SPLICE_OWN1, own1[i][0], own1[i][1], own1[i][2], NUL_); }
 }
 static void bse(bs_t t, char *e, size_t n) { if (!t.p) snprintf(e, n, "NULL"); else { e[0] = '"'; mc_esc(t.p, (size_t) t.n, e + 1, n - 3); strcat(e, "\""); } }
 static void op_name(int i, char *b, size_t n)
@@ -83,6 +85,7 @@ static void op_name(int i, char *b, size_t n)
     case K_PRE_SELF: snprintf(b, n, "prepend(self)"); break;
     case K_SPLICE_SELF: snprintf(b, n, "splice(%d,%d,self)", o->a, o->b); break;
     case K_SPLICE_OWN: snprintf(b, n, "splice_from_ptr(%d,%d,own storage+%d)", o->a, o->b, o->c); break;
+    case K_SPLICE_OWN1: snprintf(b, n, "splice_from_ptr(%d,%d,own storage+%d,1)", o->a, o->b, o->c); break;
     }
 }
 static void *fresh(void) { st_t *s = calloc(1, sizeof *s); s->base = mc_live_bytes(); return s; }
@@ -137,6 +140,7 @@ static int would_len(st_t *s, op_t *o)
     case K_APP_SELF: case K_PRE_SELF: return 2 * s->n;
     case K_SPLICE_SELF: { int i = o->a, c = o->b; if (!splice_norm(s->n, &i, &c)) return s->n; return 2 * s->n - c; }
     case K_SPLICE_OWN: { int i = o->a, c = o->b; if (!splice_norm(s->n, &i, &c)) return s->n; return 2 * s->n - c - o->c; }
+    case K_SPLICE_OWN1: { int i = o->a, c = o->b; if (!splice_norm(s->n, &i, &c)) return s->n; return s->n - c + 1; }
     case K_SPLICE: case K_SPLICE_PTR: { int i = o->a, c = o->b; if (!splice_norm(s->n, &i, &c)) return s->n; return s->n - c + tlen(o->t); }
     default: return s->n;
     }
@@ -150,7 +154,8 @@ static int enabled(void *vs, int op)
         if (s->n > L) return 0;
         if (abs(o->a) > s->n + 2 || abs(o->b) > s->n + 2) return 0;
     }
-    if (o->k == K_SPLICE_OWN && (s->n <= o->c || s->n > L)) return 0;        /* the source is the tail of the object's own storage from offset c */
+    if (o->k == K_SPLICE_OWN && (s->n <= o->c || s->n > L)) return 0;
+    if (o->k == K_SPLICE_OWN1 && s->n <= o->c) return 0;        /* the source is the tail of the object's own storage from offset c */
     if (would_len(s, o) > L && would_len(s, o) > s->n) return 0;
     return 1;
 }
@@ -227,6 +232,10 @@ static void apply(void *vs, int op)
     case K_SPLICE_OWN: { int i = o->a, c = o->b, ok = splice_norm(s->n, &i, &c), sl = s->n - o->c;      /* the caller's pointer stays valid until the call returns: splice builds the result in a new block */
         r = F(splice_from_ptr)(self, o->a, o->b, self->buff + o->c, (spif_memidx_t) (s->n - o->c)); expect_r = ok; shape = ok ? "splice with a pointer into the object's own storage" : "splice out of range";
         if (ok) { unsigned char tmp[LMAX * 3 + 2]; memcpy(tmp, s->m, (size_t) i); memcpy(tmp + i, s->m + o->c, (size_t) sl); memcpy(tmp + i + sl, s->m + i + c, (size_t) (s->n - i - c)); model_set(s, tmp, s->n - c + sl); }
+        break; }
+    case K_SPLICE_OWN1: { int i = o->a, c = o->b, ok = splice_norm(s->n, &i, &c);      /* the bytes that count are the ones the pointer showed when the call was made */
+        r = F(splice_from_ptr)(self, o->a, o->b, self->buff + o->c, 1); expect_r = ok; shape = ok ? "splice with one byte of the object's own storage" : "splice out of range";
+        if (ok) { unsigned char tmp[LMAX * 3 + 2]; memcpy(tmp, s->m, (size_t) i); tmp[i] = s->m[o->c]; memcpy(tmp + i + 1, s->m + i + c, (size_t) (s->n - i - c)); model_set(s, tmp, s->n - c + 1); }
         break; }
     case K_DONE: r = F(done)(self); model_set(s, "", 0); if (self->buff) FAIL(CLS "_done", "model:not-emptied", shape, "buffer still set after done()"); break;
     case K_DONE_INIT: F(done)(self); r = F(init)(self); model_set(s, "", 0); break;
@@ -322,14 +331,15 @@ static void probe(void *vs)
          * k <= len: sign of memcmp over k bytes; k > len: decided by the first len bytes when they differ,
          * otherwise unspecified (the implementation may look at its capacity slack) - safety oracle only */
         if (isnull) CK(cmp_with_ptr, F(cmp_with_ptr)(o, ht, tl), 1, "cmp_with_ptr(NULL, %d)", tl);
-        else { int m_ = min(n, tl), d_ = m_ ? memcmp(s->m, t, (size_t) m_) : 0; spif_cmp_t g = F(cmp_with_ptr)(o, ht, tl);
+        else if (tl <= n || !mc_have_msan()) {    /* (MemorySanitizer build: the slack was never written, looking at it is what that build reports - the call is left out there) */
+            int m_ = min(n, tl), d_ = m_ ? memcmp(s->m, t, (size_t) m_) : 0; spif_cmp_t g = F(cmp_with_ptr)(o, ht, tl);
                if (tl <= n || d_) CK(cmp_with_ptr, g, d_ < 0 ? -1 : (d_ > 0 ? 1 : 0), "cmp_with_ptr(other, %d)", tl);
                else if (cmpv(g) == 9) FAIL(CLS "_cmp_with_ptr", "model:return", sh, "not a comparison value"); }
         for (int c = 0; c <= w; c++) {
             int e_n = isnull ? 1 : seqcmp(s->m, min(n, c), t, min(tl, c));
             CK(ncmp, F(ncmp)(o, ot, c), e_n, "ncmp(other %d bytes, %d)", tl, c);
             if (isnull) CK(ncmp_with_ptr, F(ncmp_with_ptr)(o, ht, c), 1, "ncmp_with_ptr(NULL, %d)", c);
-            else if (c <= tl) {                 /* the pointer form needs c readable bytes behind the pointer */
+            else if (c <= tl && (c <= n || !mc_have_msan())) {                 /* the pointer form needs c readable bytes behind the pointer */
                 int m_ = min(n, c), d_ = m_ ? memcmp(s->m, t, (size_t) m_) : 0; spif_cmp_t g = F(ncmp_with_ptr)(o, ht, c);
                 if (c <= n || d_) CK(ncmp_with_ptr, g, d_ < 0 ? -1 : (d_ > 0 ? 1 : 0), "ncmp_with_ptr(other, %d)", c);
                 else if (cmpv(g) == 9) FAIL(CLS "_ncmp_with_ptr", "model:return", sh, "not a comparison value");
